@@ -12,6 +12,7 @@
 #include <sched.h>
 #include <unistd.h>
 #include <stdint.h>
+#include <time.h>
 #include <cstdio>
 #include <cstdlib>
 #include <cstring>
@@ -67,10 +68,11 @@ struct Sched
 	int decisions;
 	uint64_t jitterSeed;
 	int jitterPercent;
+	int delayKind, delayMs;   // free-running mode: busy-wait (no cancellation point) at this hook kind
 	bool deadlock;
 
 	Sched() : scheduling(false), active(false), current(0), pos(0), mismatches(0), pendingChild(-1), observer(0),
-	          observerArg(0), decisions(0), jitterSeed(0), jitterPercent(0), deadlock(false)
+	          observerArg(0), decisions(0), jitterSeed(0), jitterPercent(0), delayKind(0), delayMs(0), deadlock(false)
 	{
 		pthread_mutex_init(&mu, 0);
 		pthread_cond_init(&cv, 0);
@@ -169,6 +171,13 @@ inline void hook(int kind, const volatile void* obj, long val)
 	if (!s.active) return;
 	if (!s.scheduling)
 	{
+		if (s.delayMs && kind == s.delayKind)
+		{
+			struct timespec t0, t1;
+			clock_gettime(CLOCK_MONOTONIC, &t0);
+			do clock_gettime(CLOCK_MONOTONIC, &t1);
+			while ((t1.tv_sec - t0.tv_sec) * 1000 + (t1.tv_nsec - t0.tv_nsec) / 1000000 < s.delayMs);
+		}
 		if (kind == PRE_INC || kind == PRE_DEC || kind == PRE_LOCK || kind == PRE_FIN || kind == READY || kind == SEM_POST ||
 		    kind == SEM_PRE_WAIT || kind == COND_SIGNAL || kind == SRV_LOOP_END || kind == SRV_HANDLER_END || kind == T_ENTRY)
 			jitter(s);
@@ -332,6 +341,7 @@ inline void beginFree(uint64_t seed, int jitterPercent)
 	s.scheduling = false;
 	s.jitterSeed = seed;
 	s.jitterPercent = jitterPercent;
+	s.delayKind = s.delayMs = 0;
 	s.active = true;
 	pthread_mutex_unlock(&s.mu);
 }
